@@ -28,6 +28,7 @@ import (
 	"os"
 	"os/exec"
 	"runtime"
+	"runtime/debug"
 	"strconv"
 	"strings"
 	"time"
@@ -461,6 +462,12 @@ func same(s string) string { return s }
 // renders all of them only after the last call. A result that reads differently at the end than
 // right after its call is reported as `unstable=`.
 func seqRun(steps []string) string {
+	// Per-P caches (sync.Pool and the like) hand a buffer back to the next caller only when that
+	// caller runs on the same P and no garbage collection came in between; on a loaded machine a
+	// goroutine migrates. One P and no collection for the duration of a sequence makes "a later call
+	// reuses what an earlier call returned" deterministic instead of likely.
+	defer runtime.GOMAXPROCS(runtime.GOMAXPROCS(1))
+	defer debug.SetGCPercent(debug.SetGCPercent(-1))
 	var ks []kept
 	var early []string
 	for _, st := range steps {
